@@ -461,8 +461,12 @@ where
         let mut k = self.probs.len() - 1;
         for (i, &p) in self.probs.iter().enumerate() {
             cum += p;
-            if r <= cum {
+            // Only categories with positive probability may be returned: `k` tracks the last
+            // such category, which is also the fallback if rounding keeps `cum` below `r`.
+            if p > T::zero() {
                 k = i;
+            }
+            if r < cum {
                 break;
             }
         }
